@@ -1,4 +1,4 @@
-import Tickit.Proof.EvLoopPend
+import Tickit.Proof.EvLoopPoll
 import Tickit.Gen.EvLoop
 /-
   C18 — A delivered signal or ready descriptor always reaches its watchers.   (claimed: partial)
@@ -22,8 +22,9 @@ import Tickit.Gen.EvLoop
     `cancelled_not_invoked`              a cancelled entry is skipped.
     `signal_reaches_watchers_end_to_end` one repaired iteration, from the wait to the callback log (uses
                                           `signal_bookkeeping_invariant`, `dispatch_reaches_watchers`).
-  Defects of the shipped tree: the `*_counterexample` theorems (corpus/C18).  Not proved: the
-  `def … : Prop` at the end (engines.d/C18.json open_statements).
+    `io_exact_conditions`                one repaired iteration, from the wait to the io callbacks.
+  Defects of the shipped tree: the `*_counterexample` theorems (corpus/C18).  No statement of the property
+  is left open; `OsPpoll` is assumed.
 -/
 namespace Tickit.Props.C18
 open Tickit Tickit.EvLoop
@@ -248,6 +249,20 @@ theorem cancelled_not_invoked (fuel : Nat) (st : St) (idx : Nat) (hok : st.isOk 
 
 example : ((evloopCancelIo (runOps .shipped [.act (.io 0 100 1 0)]) 0).pfd.getD 0 default).fd = -1 := by decide +kernel
 
+/-- One iteration under the repaired `evloop_io`, from the wait to the callbacks: every io watch the iteration
+    invokes is the watch of an entry the wait scanned, is invoked at most once (entries are taken in index
+    order), and with exactly `condOfRevents (pollRevents …)` of *that* entry — whatever timers, deferred
+    callbacks and the io callbacks before it registered or cancelled. -/
+theorem io_exact_conditions (fuel : Nat) (st : St) (t : Option Int) (hc : st.cfg.reventsCleared = true) :
+    (∀ e ∈ (ioLoopT fuel (invokeTimers fuel (ppoll st t).1) 0).2,
+        e.1 < st.pfd.length ∧ (st.pfd.getD e.1 default).fd ≠ -1 ∧ e.2.1 = (st.pfd.getD e.1 default).watch ∧
+        e.2.2 = condOfRevents (pollRevents st (st.pfd.getD e.1 default))) ∧
+    (ioLoopT fuel (invokeTimers fuel (ppoll st t).1) 0).2.Pairwise (fun x y => x.1 < y.1) :=
+  io_exact_end_to_end fuel st t hc
+
+example : (ioLoopT 100 (invokeTimers 100 (ppoll (runOps .repaired [.beh ⟨0, 0, [.cancel 1, .io 2 102 1 0]⟩, .act (.io 0 100 1 0),
+    .act (.io 1 101 1 0), .ready 100 1, .ready 101 1, .ready 102 1]) (some 0)).1) 0).2 = [(0, some 2, 1)] := by decide +kernel
+
 /-! ### defects of the tree as shipped (corpus/C18/*.ops), and the same histories repaired -/
 
 def cbLog (st : St) : List Ev := st.log.reverse.filter fun e => match e with | .cb .. => true | _ => false
@@ -294,14 +309,5 @@ theorem signal_self_cancel_counterexample : (runOps .shipped probeSigSelfCancel)
   decide +kernel
 theorem signal_self_cancel_repaired : (runOps .repaired probeSigSelfCancel).status = .ok ∧
     cbLog (runOps .repaired probeSigSelfCancel) = [.cb 0 1 .none] := by decide +kernel
-
-/-! ### statements of the property that are not proved (engines.d/C18.json: open_statements) -/
-
-/-- End to end for descriptors under the repaired source: in one iteration every invocation of an io
-    watch carries `condOfRevents (pollRevents …)` of *its own* entry as scanned by this iteration's wait. -/
-def io_exact_conditions_full : Prop :=
-  ∀ (fuel : Nat) (st : St) (nohang : Bool), st.cfg = .repaired → (tick fuel st nohang).status = .ok →
-    ∀ k fd c, Ev.cb k EV_FIRE (.io fd c) ∈ (tick fuel st nohang).log →
-      ∃ s ∈ st.pfd, s.fd = fd ∧ c = condOfRevents (pollRevents st s)
 
 end Tickit.Props.C18
